@@ -184,7 +184,10 @@ use std::{
     cmp, collections::HashMap, fmt, hash::BuildHasherDefault, io, io::prelude::*, sync::Arc,
 };
 
+#[cfg(not(log4rs_verif))]
 use arc_swap::ArcSwap;
+#[cfg(log4rs_verif)]
+use verif_hooks::ArcSwap;
 use fnv::FnvHasher;
 use log::{Level, LevelFilter, Metadata, Record};
 
@@ -194,6 +197,9 @@ pub mod encode;
 pub mod filter;
 #[cfg(feature = "console_writer")]
 mod priv_io;
+#[cfg(log4rs_verif)]
+#[doc(hidden)]
+pub mod verif_hooks;
 
 pub use config::{init_config, Config};
 
@@ -202,7 +208,10 @@ pub use config::{init_file, init_raw_config};
 
 use self::{append::Append, filter::Filter};
 
+#[cfg(not(log4rs_verif))]
 type FnvHashMap<K, V> = HashMap<K, V, BuildHasherDefault<FnvHasher>>;
+#[cfg(log4rs_verif)]
+type FnvHashMap<K, V> = verif_hooks::VecMap<K, V>;
 
 #[derive(Debug)]
 struct ConfiguredLogger {
@@ -342,6 +351,8 @@ impl SharedLogger {
         err_handler: Box<dyn Send + Sync + Fn(&anyhow::Error)>,
     ) -> SharedLogger {
         let (appenders, root, mut loggers) = config.unpack();
+        #[cfg(log4rs_verif)]
+        use verif_hooks::VecMap as HashMap;
 
         let root = {
             let appender_map = appenders
